@@ -91,7 +91,7 @@ func runReadOnce(c readCfg, stream []byte, chunk func(int) int) string {
 	var panicked string
 	select {
 	case panicked = <-done:
-	case <-time.After(10 * time.Second):
+	case <-time.After(30 * time.Second):
 		return "HANG"
 	}
 	_ = peer
@@ -132,6 +132,9 @@ func execRead(args []string) string {
 	stream := unhx(args[5])
 	r := NewRand(hashString(args[5]) ^ 0x5555)
 	all := runReadOnce(c, stream, nil)
+	if c.limit > 1<<30 {
+		return all // multi-GiB buffers: one chunking only (each run has to fault in the whole allocation)
+	}
 	one := runReadOnce(c, stream, func(int) int { return 1 })
 	rnd := runReadOnce(c, stream, func(avail int) int { return 1 + r.Intn(7) })
 	if all != one || all != rnd {
@@ -250,6 +253,16 @@ func genRead(g *Gen) {
 				g.Count("extreme")
 			}
 		}
+	}
+	// 4b. limits at and above 2^31: the declared length is accepted by the limit check, the buffer request must not wrap
+	for i, decl := range []uint64{1<<31 + 5, 1<<31 - 9, 1<<32 + 5} {
+		if i > 0 && !g.Thorough() {
+			break
+		}
+		c := readCfg{server: true, dpsBits: -1, limit: 1 << 33, utf8: false}
+		f := frameSpec{fin: true, opcode: 2, masked: true, key: key, lenForm: 64, overrideLen: true, declLen: decl, payload: bytesOf(8, 'z')}
+		emit(c, f.bytes())
+		g.Count("hugelimit")
 	}
 	genReadLimits(g, emit)
 	genReadUtf8(g, emit)
